@@ -5,6 +5,7 @@ import (
 	"fmt"
 	"io"
 	"log/slog"
+	"math"
 	"net/http"
 	"strconv"
 	"strings"
@@ -191,7 +192,13 @@ func parseRangeHeader(rangeHeader string) ([]storage.ByteRange, error) {
 			// Normal range: convert inclusive end to exclusive end
 			var exclusiveEnd *int64
 			if end != nil {
-				excEnd := *end + 1
+				// A last-byte-pos of MaxInt64 cannot be made exclusive without
+				// overflowing; it lies beyond every object and is clamped to the
+				// object size by the storage layer either way.
+				excEnd := int64(math.MaxInt64)
+				if *end < math.MaxInt64 {
+					excEnd = *end + 1
+				}
 				exclusiveEnd = &excEnd
 			}
 			ranges = append(ranges, storage.ByteRange{Start: start, End: exclusiveEnd})
